@@ -30,13 +30,13 @@ func NullAV() AV { return AV{Null: true} }
 
 // Rep describes the Go representation of one node.
 type Rep struct {
-	Kind   string // see repKinds below
-	Ptr    bool   // declared as pointer to the base type (nillable)
-	Iface  bool   // declared as interface{} (holding the base type, or pointer to it if Ptr)
-	Elem   *Rep   // list/set element, map value
-	Key    *Rep   // map key
-	Fields []*Rep // tuple / UDT fields when Kind is "struct" or "ifaceslice" or "ifacemap"
-	ArrLen int    // length of an "array" representation (fixed when the first value is drawn); -1 = not fixed yet
+	Kind   string   // see repKinds below
+	Ptr    bool     // declared as pointer to the base type (nillable)
+	Iface  bool     // declared as interface{} (holding the base type, or pointer to it if Ptr)
+	Elem   *Rep     // list/set element, map value
+	Key    *Rep     // map key
+	Fields []*Rep   // tuple / UDT fields when Kind is "struct" or "ifaceslice" or "ifacemap"
+	ArrLen int      // length of an "array" representation (fixed when the first value is drawn); -1 = not fixed yet
 	Names  []string // struct field names
 	Tags   []string // cassandra tags of struct fields ("" = none)
 }
@@ -1254,7 +1254,6 @@ func sortStrings(a []string) {
 // EqualAV compares by value (maps as sets of entries; NaN equal to itself by bits).
 func EqualAV(dt datatype.DataType, a, b AV) bool { return RenderAV(dt, a) == RenderAV(dt, b) }
 
-
 // PreferredHashable: the documented preferred Go type of dt can be used as a Go map key.
 func PreferredHashable(dt datatype.DataType) bool {
 	switch dt.Code() {
@@ -1290,7 +1289,6 @@ func UntypedDecodable(dt datatype.DataType) bool {
 	}
 	return true
 }
-
 
 // scrubNaN replaces NaN by 1.5 inside a value used as a map key: a Go map entry keyed by NaN (directly or inside a struct
 // or array key) can never be looked up again, so such maps are not usable sources.
@@ -1338,7 +1336,6 @@ func scrubNaN(dt datatype.DataType, av AV) AV {
 	}
 	return av
 }
-
 
 // fixKeyRep makes a representation used as a Go map key decodable: arrays and structs hash their elements, and an
 // interface{}-typed element is decoded into the preferred Go type, which must then be hashable itself.
